@@ -174,9 +174,10 @@ class PDFPage:
                 log.warning(warning_msg)
         # Process each page contained in the document.
         for pageno, page in enumerate(cls.create_pages(doc)):
-            if pagenos and (pageno not in pagenos):
-                continue
-            yield page
+            # maxpages limits the page index: it also ends the iteration when
+            # the last page below the limit is not among the selected ones.
+            if not pagenos or pageno in pagenos:
+                yield page
             if maxpages and maxpages <= pageno + 1:
                 break
 
